@@ -62,6 +62,16 @@ Definition check_fn (nurbs : bool) (f : bsp) (m : nat) (pts : list ptrec) : bool
 (* coefficient arrays of constructed objects *)
 Definition check_arr (bound : Qc) (f : bsp) (impl : list Qc) : bool := close_list bound (flatten f) impl.
 
+(* __getitem__ with the Python index kinds; None (IndexError in the model) never matches *)
+Definition check_sel (nurbs : bool) (bound : Qc) (f : bsp) (lead n : nat) (oks : option (list nat)) (impl : list Qc) : bool :=
+  match oks with
+  | Some ks => if nurbs then check_arr bound (n_select f ks) impl
+               else check_arr bound (b_select f (sel_comps lead n ks)) impl
+  | None => false
+  end.
+Definition ix_int (n : nat) (i : Z) : option (list nat) :=
+  match py_wrap n i with Some k => Some (k :: nil) | None => None end.
+
 Definition opair_eqb (a : option (nat * nat)) (b : option (nat * nat)) : bool :=
   match a, b with
   | Some (x, y), Some (x', y') => Nat.eqb x x' && Nat.eqb y y'
